@@ -7,7 +7,7 @@ from ..gen import G
 
 ID = "C19"
 LEVEL = "exploration"
-RULE = ("cases = SEQUENCES of 1-4 foreign calls in one program, each call = (library: one of two builds of the probe that tag their output differently - under `lib<name>.so` or under a versioned name / an own extension / no extension / in a dotted directory, each with a decoy of the OTHER build under the name a normalised spelling would give - or a missing file) x (argument vector of length 0-6 over int, bigint, float, byte, bool, str with boundary values and "
+RULE = ("cases = SEQUENCES of 1-4 foreign calls in one program (a single call also inside a function, two functions deep, or inside the callback of list.map / list.filter), each call = (library: one of two builds of the probe that tag their output differently - under `lib<name>.so` or under a versioned name / an own extension / no extension / in a dotted directory, each with a decoy of the OTHER build under the name a normalised spelling would give - or a missing file) x (argument vector of length 0-6 over int, bigint, float, byte, bool, str with boundary values and "
         "format-special characters) x (return form: first argument echoed back, last argument echoed back, no value, raised error with a fixed message, raised error whose message is made of the string arguments - one or several lines - and must be reported whole) "
         "+ the fault cases missing library / missing symbol; the harness writes BINARY bytecode itself (its own encoder: "
         "push each argument, call_lib, printn *, make_str AFTER, printn *) and a probe dylib built against the working tree's "
@@ -35,16 +35,45 @@ def quote(arg):
     return "\"" + arg.replace("\\", "\\\\").replace("\"", "\\\"").replace("\n", "\\n").replace("\r", "\\r").replace("\t", "\\t") + "\""
 
 
-def encode(instrs):
-    """binary bytecode of one module: [(name, [args])]"""
-    out = bytearray(b"f __module__\0")
-    for name, args in instrs:
-        out.append(ids()[name])
-        for a in args:
-            out += b" " + quote(a).encode("utf-8")
-        out.append(0)
-    out += b"e\0"
+def encode(instrs, functions=()):
+    """binary bytecode of one module: [(name, [args])] for __module__, preceded by further functions [(label, instrs)]"""
+    out = bytearray()
+    for label, body in list(functions) + [("__module__", instrs)]:
+        out += b"f " + label.encode("utf-8") + b"\0"
+        for name, args in body:
+            out.append(ids()[name])
+            for a in args:
+                out += b" " + quote(a).encode("utf-8")
+            out.append(0)
+        out += b"e\0"
     return bytes(out)
+
+
+CTXS = ["module", "fn", "fn-in-fn", "map", "filter", "map-second-element"]
+
+
+def in_context(ctx, call_instrs):
+    """the instructions of ONE foreign call (push args, call_lib, print the result) placed in a calling context.
+    -> (module instructions, functions, how often the call runs when nothing fails)"""
+    if ctx == "module":
+        return call_instrs, [], 1
+    call_fn = lambda label: [("make_function", ["main.mmm#" + label]), ("store_fast", ["#f"]), ("load_fast", ["#f"]), ("call", []), ("void", [])]
+    if ctx == "fn":
+        return call_fn("cb"), [("cb", call_instrs + [("void", []), ("ret", [])])], 1
+    if ctx == "fn-in-fn":
+        return call_fn("outer"), [("cb", call_instrs + [("void", []), ("ret", [])]), ("outer", call_fn("cb") + [("void", []), ("ret", [])])], 1
+    # the call sits in the callback of list.map / list.filter over [1, 2]; with `map-second-element` only the SECOND element calls out
+    result = [("make_bool", ["true"])] if ctx == "filter" else [("make_int", ["7"])]
+    body = [("arg", ["0"]), ("store", ["x"])]
+    if ctx == "map-second-element":
+        # if x == 1 { return 7 }
+        body += [("load", ["x"]), ("make_int", ["1"]), ("equ", []), ("if_stmt", ["4"]), ("make_int", ["7"]), ("ret", []), ("done", [])]
+    cb = body + call_instrs + result + [("ret", [])]
+    mod = [("make_function", ["main.mmm#cb"]), ("store", ["cbf"]), ("make_vector", ["2"]), ("store_fast", ["#0"]), ("make_int", ["1"]), ("vec_op", ["+#0"]),
+           ("make_int", ["2"]), ("vec_op", ["+#0"]), ("delete_name_reference_scoped", ["#0"]), ("store", ["xs"]),
+           ("load", ["xs"]), ("store_fast", ["#1"]), ("load_fast", ["#1"]), ("lookup", ["filter" if ctx == "filter" else "map"]), ("store_fast", ["#2"]),
+           ("load", ["cbf"]), ("store_fast", ["#3"]), ("load_fast", ["#3"]), ("ld_self", ["#1"]), ("load_fast", ["#2"]), ("call", []), ("void", [])]
+    return mod, [("cb", cb)], (1 if ctx == "map-second-element" else 2)
 
 
 def push(v):
@@ -140,12 +169,17 @@ def calls_of(case):
 
 def build(case):
     calls = calls_of(case)
+    ctx = case.get("ctx", "module") if len(calls) == 1 else "module"
     instrs, exp = [], []
+    functions, repeat = [], 1
     failed = None
     for c in calls:
         lib, form, vec = c["lib"], c["form"], c["args"]
         fn = c.get("symbol") or FORMS[form]
-        instrs += [push(v) for v in vec] + [("call_lib", [LIBFILE[lib], fn]), ("printn", ["*"]), ("void", [])]
+        one = [push(v) for v in vec] + [("call_lib", [LIBFILE[lib], fn]), ("printn", ["*"]), ("void", [])]
+        if ctx != "module":
+            one, functions, repeat = in_context(ctx, one)
+        instrs += one
         if failed is not None:
             continue
         if lib == "missing":
@@ -167,8 +201,10 @@ def build(case):
             exp.append("")
         else:
             exp.append(display(vec[0] if form == "first" else vec[-1]))
+    if repeat == 2 and failed is None:
+        exp = exp + exp                 # the callback ran for both elements
     instrs += [("make_str", ["AFTER"]), ("printn", ["*"]), ("void", []), ("ret_mod", [])]
-    data = encode(instrs)
+    data = encode(instrs, functions)
     if failed:
         asserts = [{"kind": "stdout_eq", "step": "run", "value": "".join(l + "\n" for l in exp)},
                    {"kind": "exit", "step": "run", "in": ["error"]}, {"kind": "c19_message", "step": "run", "value": failed},
@@ -194,7 +230,7 @@ def a_message(a, res, ctx):
 
 
 def describe(case):
-    return " ; ".join("lib%s.%s(%s)" % (c["lib"], c.get("symbol") or c["form"], ", ".join(debug(tuple(v)) for v in c["args"])) for c in calls_of(case))
+    return ("[in %s] " % case["ctx"] if case.get("ctx") and case.get("ctx") != "module" else "") + " ; ".join("lib%s.%s(%s)" % (c["lib"], c.get("symbol") or c["form"], ", ".join(debug(tuple(v)) for v in c["args"])) for c in calls_of(case))
 
 
 def check(case):
@@ -231,6 +267,13 @@ def enumerated(tier, seed):
     for text in ("plain", "two\nlines", "three\nlines\nhere", "\nleading break", "trailing break\n", "a\n\nb", "tab\there", "q\"r", "back\\slash", "é😀", "", " lead", "cr\r\nlf"):
         cases.append({"args": [("int", 1), ("str", text)], "form": "errtext"})
         cases.append({"args": [("str", text), ("str", "x\ny")], "form": "errtext"})
+    # ONE call in every calling context: inside a function, two functions deep, inside the callback of list.map / list.filter
+    for cx in CTXS[1:]:
+        for f in ("first", "last", "none", "error", "errtext"):
+            for args in ([("int", 7), ("str", "x y")], [], [("str", "two\nlines"), ("bigint", 2 ** 64)]):
+                cases.append({"args": args, "form": f, "ctx": cx})
+        for fault in ("missing-library", "missing-symbol"):
+            cases.append({"args": [("int", 1)], "form": "first", "fault": fault, "ctx": cx})
     for nm in NAMED:
         for f in ("first", "none", "error", "only1"):
             cases.append({"calls": [{"lib": nm, "form": f, "args": [("int", 7), ("str", "x y")], "symbol": None}]})
@@ -282,12 +325,13 @@ def vectors(draw):
 def sequences(draw):
     g = G(draw)
     calls = []
+    ctx = g.choice(CTXS + ["module"] * 3)
     for _ in range(g.weighted([(5, 1), (3, 2), (2, 3), (1, 4)])):
         args = draw(vectors())
         fault = g.weighted([(12, None), (1, "missing-library"), (1, "missing-symbol")])
         calls.append({"lib": "missing" if fault == "missing-library" else g.choice([1, 1, 2] + (list(NAMED) if g.chance(30) else [])), "form": g.choice(["first", "last", "none", "error", "errtext", "only1", "first", "last"]),
                       "args": args, "symbol": "probe_does_not_exist" if fault == "missing-symbol" else None})
-    return {"calls": calls}
+    return {"calls": calls, "ctx": ctx} if len(calls) == 1 else {"calls": calls}
 
 
 def strategy(tier):
